@@ -9,6 +9,7 @@ correspondence with boundary-dense name lengths, sizes, offsets and counts.
 import GoNfsd.Lemmas.FsStep
 import GoNfsd.Gen.Announce
 import GoNfsd.Lemmas.Dirty
+import GoNfsd.Lemmas.SizeBound
 
 namespace GoNfsd.Props.C19
 open GoNfsd.Model.Fs GoNfsd.Gen.Consts
@@ -156,5 +157,24 @@ example :
     (step (mkfs true 100000) (.create (mkFh 1 1) (List.replicate 112 97) 0) { inum := 2, slot := 2 }).2.isOk = true ∧
     (step (mkfs true 100000) (.create (mkFh 1 1) (List.replicate 113 97) 0) { inum := 2, slot := 2 }).2.isOk = false := by
   decide
+
+/-- NO FILE EVER EXCEEDS THE ANNOUNCED MAXIMUM FILE SIZE: in every state reachable from the freshly formatted file system
+    — any sequence of all procedures, any allocator and slot choices, failing requests included — every regular file's size is
+    at most `MaxFileSize`, the value FSINFO announces (`announced_consistent`).  It is an invariant of every operation
+    (`Lemmas/SizeBound`: WRITE and SETATTR by their guards, creation by the size of a new inode, removal and RENAME because
+    they change no file's size).  The creating procedures of the model take no initial size; that the server's do not apply
+    one beyond the limit either is probed by `harness initattr` (seeded change C19p: CREATE applies it through `Resize`
+    without the test SETATTR makes). -/
+theorem no_file_ever_exceeds_the_announced_maximum (u : Bool) (sz : Nat) (ops : List (Op × Choice)) (i : Nat)
+    (hk : ((run (mkfs u sz) ops).1.get i).kind = NF3REG) :
+    ((run (mkfs u sz) ops).1.get i).size ≤ MaxFileSize :=
+  run_allsize _ ops (mkfs_allsize u sz) i hk
+
+/-- non-vacuity: the bound is reached — CREATE, then SETATTR to exactly `MaxFileSize` -/
+example :
+    ((run (mkfs true 100000) [(.create (mkFh 1 1) [102] 0, { inum := 2, slot := 2 }),
+      (.setattr (mkFh 2 1) (some MaxFileSize) .dont .dont, {})]).1.get 2).size = MaxFileSize ∧
+    ((run (mkfs true 100000) [(.create (mkFh 1 1) [102] 0, { inum := 2, slot := 2 }),
+      (.setattr (mkFh 2 1) (some MaxFileSize) .dont .dont, {})]).1.get 2).kind = NF3REG := by decide
 
 end GoNfsd.Props.C19
